@@ -4,9 +4,13 @@
    base; cross-checked against plain extraction in the thorough tier). *)
 From Coq Require Import ZArith QArith List.
 From Coq Require Import ExtrOcamlBasic ExtrOcamlZBigInt.
-From Manif Require Import Scalar Mat Consts Group QInst Run.
+From Manif Require Import Scalar Mat Consts Group QInst Dual Run.
 Extract Constant Z.gcd => "Big_int_Z.gcd_big_int".
 Definition run_q (orc : positive -> Q -> Q -> Q) (flt : bool) (g : gid) (op : opcode)
     (mask : list bool) (iarg : Z) (args : list (list Q)) : res (list (list Q)) :=
   @run_op (QS orc) (if flt then @eps_float (QS orc) else @eps_double (QS orc)) g op mask iarg args.
-Extraction "model.ml" run_q.
+(* the same entry point with the model instantiated over dual numbers on the rationals (property C12) *)
+Definition run_dq (orc : positive -> Q -> Q -> Q) (g : gid) (op : opcode)
+    (mask : list bool) (iarg : Z) (args : list (list (Q * Q))) : res (list (list (Q * Q))) :=
+  @run_op (DS (QS orc)) (@eps_double (DS (QS orc))) g op mask iarg args.
+Extraction "model.ml" run_q run_dq.
